@@ -15,38 +15,67 @@ FULL = (1 << WIDTH) - 1
 
 
 class Xfer:
-    """new = (old & A) | O ; T = bits whose effect is unknown"""
-    __slots__ = ("A", "O", "T")
+    """per-bit function of the old field value: Z = result bits when the old bit
+    is 0, N = result bits when the old bit is 1 (keep: Z=0,N=1; set: 1,1;
+    clear: 0,0; flip: 1,0); T = bits whose effect is unknown"""
+    __slots__ = ("Z", "N", "T")
 
-    def __init__(self, A=FULL, O=0, T=0):
-        self.A, self.O, self.T = A & FULL, O & FULL, T & FULL
+    def __init__(self, A=FULL, O=0, T=0, Z=None, N=None):
+        if Z is None:
+            # new = (old & A) | O
+            Z = O
+            N = (A | O)
+        self.Z, self.N, self.T = Z & FULL, N & FULL, T & FULL
 
-    def then(self, other):
-        """self followed by other"""
-        return Xfer(self.A & other.A, (self.O & other.A) | other.O, (self.T & other.A & ~other.O) | other.T)
+    @staticmethod
+    def xor(c):
+        return Xfer(Z=c, N=~c & FULL)
 
-    def join(self, other):
-        diff = (self.A ^ other.A) | (self.O ^ other.O)
-        return Xfer(self.A, self.O, self.T | other.T | diff)
+    def then(self, o):
+        """self followed by o"""
+        # result for old bit b: o applied to self(b)
+        z = (self.Z & o.N) | (~self.Z & o.Z)
+        n = (self.N & o.N) | (~self.N & o.Z)
+        const_o = ~(o.Z ^ o.N) & FULL          # bits where o ignores its input
+        t = (self.T & ~const_o) | o.T
+        return Xfer(Z=z, N=n, T=t)
+
+    def join(self, o):
+        diff = (self.Z ^ o.Z) | (self.N ^ o.N)
+        return Xfer(Z=self.Z, N=self.N, T=self.T | o.T | diff)
 
     def apply(self, v):
-        return ((v & self.A) | self.O) & FULL
+        return ((~v & self.Z) | (v & self.N)) & FULL
+
+    @property
+    def A(self):
+        """bits that may survive (not forced to 0)"""
+        return (self.Z | self.N) & FULL
+
+    @property
+    def O(self):
+        """bits forced to 1"""
+        return self.Z & self.N & FULL
+
+    def changed(self):
+        """bits that are not simply kept"""
+        return (self.Z | (~self.N & FULL) | self.T) & FULL
 
     def bit(self, i):
         m = 1 << i
         if self.T & m:
             return "top"
-        if self.O & m:
-            return "set"
-        if not (self.A & m):
-            return "clear"
-        return "keep"
+        z, n = bool(self.Z & m), bool(self.N & m)
+        return {(False, True): "keep", (True, True): "set", (False, False): "clear", (True, False): "flip"}[(z, n)]
+
+    def with_top(self, t=FULL):
+        return Xfer(Z=self.Z, N=self.N, T=self.T | t)
 
     def __eq__(self, o):
-        return (self.A, self.O, self.T) == (o.A, o.O, o.T)
+        return (self.Z, self.N, self.T) == (o.Z, o.N, o.T)
 
     def __repr__(self):
-        return "Xfer(A=%#x,O=%#x,T=%#x)" % (self.A, self.O, self.T)
+        return "Xfer(%s)" % ",".join(self.bit(i) for i in range(WIDTH - 1, -1, -1))
 
 
 class SetterInterp:
@@ -182,19 +211,21 @@ class SetterInterp:
                 if op == "=":
                     sym = self._sym(ks[1], env)
                     if sym is None:
-                        return Xfer(x.A, x.O, FULL)
+                        return x.with_top()
                     return x.then(sym)
                 try:
                     c = ConstEval(self.prog, env).eval(ks[1]) & FULL
                 except NotConstant:
-                    return Xfer(x.A, x.O, FULL)
+                    return x.with_top()
                 if op == "|=":
                     return x.then(Xfer(FULL, c))
                 if op == "&=":
                     return x.then(Xfer(c, 0))
                 if op == "=":
                     return x.then(Xfer(0, c))
-                return Xfer(x.A, x.O, FULL)
+                if op == "^=":
+                    return x.then(Xfer.xor(c))
+                return x.with_top()
             # a store to something else
             if lhs.get("kind") in ("MemberExpr", "UnaryOperator", "ArraySubscriptExpr", "DeclRefExpr"):
                 if not (lhs.get("kind") == "DeclRefExpr" and lhs.get("referencedDecl", {}).get("kind") in ("VarDecl",) and
@@ -203,7 +234,7 @@ class SetterInterp:
             return x
         if k == "UnaryOperator" and n.get("opcode") in ("++", "--"):
             if self._is_field(ks[0]):
-                return Xfer(x.A, x.O, FULL)
+                return x.with_top()
             self.foreign_writes.append((fname, expr_str(ks[0]), loc_str(n)))
             return x
         if k == "CallExpr":
@@ -216,13 +247,13 @@ class SetterInterp:
                 try:
                     v = ConstEval(self.prog, env).eval(args[1])
                 except NotConstant:
-                    return Xfer(x.A, x.O, FULL)
+                    return x.with_top()
                 saved = (self.inst, self.optname)
                 sub = self.summary(cn, v)
                 self.inst, self.optname = saved
                 return x.then(sub)
             # instance handed to a function we cannot summarise
-            return Xfer(x.A, x.O, FULL)
+            return x.with_top()
         return x
 
     def _sym(self, e, env):
@@ -235,22 +266,33 @@ class SetterInterp:
             return Xfer(0, ConstEval(self.prog, env).eval(e) & FULL)
         except NotConstant:
             pass
+        if e.get("kind") == "BinaryOperator" and e.get("opcode") == "^":
+            a, b = self._sym(kids(e)[0], env), self._sym(kids(e)[1], env)
+            if a is None or b is None:
+                return None
+            if a.Z == a.N and not a.T:
+                a, b = b, a
+            if not (b.Z == b.N and not b.T):
+                return None
+            return a.then(Xfer.xor(b.Z))
         if e.get("kind") == "BinaryOperator" and e.get("opcode") in ("&", "|"):
             a, b = self._sym(kids(e)[0], env), self._sym(kids(e)[1], env)
             if a is None or b is None:
                 return None
             # only field-op-constant shapes are bitwise-separable here
-            if a.A == 0 and b.A == 0:
-                v = (a.O & b.O) if e["opcode"] == "&" else (a.O | b.O)
+            ca, cb = a.Z == a.N and not a.T, b.Z == b.N and not b.T     # constants
+            if ca and cb:
+                v = (a.Z & b.Z) if e["opcode"] == "&" else (a.Z | b.Z)
                 return Xfer(0, v)
-            if a.A == 0:
+            if ca:
                 a, b = b, a
-            if b.A != 0:
+                ca, cb = cb, ca
+            if not cb:
                 return None
             c = b.O
             if e["opcode"] == "&":
-                return Xfer(a.A & c, a.O & c, a.T)
-            return Xfer(a.A, a.O | c, a.T & ~c)
+                return a.then(Xfer(c, 0))
+            return a.then(Xfer(FULL, c))
         return None
 
     def _is_local(self, ref, fname):
